@@ -1,12 +1,16 @@
 import AffVerif.Props.C14
 import AffVerif.Model.LP
+import AffVerif.Proofs.MirrorSound
 /-!
 # C15 — constraint clean-up keeps exactly the same point set
 
 Proved: `remove_rows` / `remove_zero_rows` / `remove_tautologies` return a sub-sequence of the original rows (or the
 canonical empty / whole-space polytope) and `remove_zero_rows`, `remove_tautologies` keep the point set.
-Open: `normalize`, `remove_duplicate_rows`, `remove_redundant_row_constraints` (square roots, `relative_eq` and the
-LP oracle enter; covered by exact set-equality decisions on every generated system).
+Also: `normalize` (division of rows by positive numbers; the square roots enter as parameters) and
+`remove_redundant_row_constraints` with an exact solver (threshold 0).
+Open: `remove_duplicate_rows` (`relative_eq` on normalised rows is not an equivalence of half-spaces, see the known
+finding F-C15-duplicate-rows-below-epsilon) and the `f64::EPSILON` slack of `remove_redundant_row_constraints`;
+both are covered by exact set-equality decisions on every generated system.
 -/
 set_option linter.unusedSectionVars false
 set_option linter.unusedVariables false
@@ -21,7 +25,7 @@ theorem removeRowsAux_sublist (i : Nat) (idxs : List Nat) (rs : List (List α ×
     simp only [Aff.removeRowsAux]
     split
     · exact (ih (i+1)).cons r
-    · exact (ih (i+1)).cons₂ r
+    · exact (ih (i+1)).cons_cons r
 
 /-- `remove_rows` only drops rows: the result is a sub-sequence of the original rows -/
 theorem C15_remove_rows_subseq (p : Aff α) (idxs : List Nat) : (p.removeRows idxs).rows.Sublist p.rows := by
@@ -128,5 +132,152 @@ theorem C15_remove_tautologies_subseq (p : Aff α) :
     · right; right
       rw [ofRows_rows]
       exact List.filter_sublist
+
+end AV
+
+namespace AV
+variable {α : Type} [Field α] [LinearOrder α] [IsStrictOrderedRing α]
+
+/-! ### `normalize` -/
+
+/-- `normalize` (rows and biases divided by positive numbers, rows of norm ≤ EPSILON left as they are) keeps the point
+    set; every row of the result is the original row divided by its scale -/
+theorem C15_normalize (p : Aff α) (s : List (Option α)) (hlen : s.length = p.rows.length)
+    (hpos : ∀ o ∈ s, ∀ k, o = some k → 0 < k) (x : List α) : Poly.Mem (p.scaleRows s) x ↔ Poly.Mem p x :=
+  mem_scaleRows p s hlen hpos x
+
+/-! ### `remove_redundant_row_constraints` -/
+
+theorem removeRowsAux_mem (i : Nat) (idxs : List Nat) (rows : List (List α × α)) (x : List α) :
+    (∀ rb ∈ Aff.removeRowsAux i idxs rows, dot rb.1 x ≤ rb.2) ↔
+    (∀ j (h : j < rows.length), i + j ∉ idxs → dot (rows[j]).1 x ≤ (rows[j]).2) := by
+  induction rows generalizing i with
+  | nil => simp [Aff.removeRowsAux]
+  | cons r rows ih =>
+    simp only [Aff.removeRowsAux]
+    have hshift : (∀ j (h : j < rows.length), i + 1 + j ∉ idxs → dot (rows[j]).1 x ≤ (rows[j]).2) ↔
+        (∀ j (h : j + 1 < (r :: rows).length), i + (j + 1) ∉ idxs → dot ((r :: rows)[j+1]).1 x ≤ ((r :: rows)[j+1]).2) := by
+      constructor
+      · intro h j hj hn
+        have := h j (by simpa using hj) (by rwa [show i + 1 + j = i + (j + 1) by omega])
+        simpa using this
+      · intro h j hj hn
+        have := h j (by simpa using hj) (by rwa [show i + (j + 1) = i + 1 + j by omega])
+        simpa using this
+    by_cases hc : idxs.contains i = true
+    · rw [if_pos hc, ih (i+1), hshift]
+      have hin : i ∈ idxs := by simpa using hc
+      constructor
+      · intro h j hj hn
+        cases j with
+        | zero => exact absurd hin (by simpa using hn)
+        | succ j => exact h j hj hn
+      · intro h j hj hn
+        exact h (j+1) hj hn
+    · rw [if_neg hc]
+      have hin : i ∉ idxs := by simpa using hc
+      simp only [List.mem_cons, forall_eq_or_imp]
+      rw [ih (i+1), hshift]
+      constructor
+      · rintro ⟨h0, h⟩ j hj hn
+        cases j with
+        | zero => simpa using h0
+        | succ j => exact h j hj hn
+      · intro h
+        refine ⟨?_, fun j hj hn => h (j+1) hj hn⟩
+        have := h 0 (by simp) (by simpa using hin)
+        simpa only [List.getElem_cons_zero] using this
+
+/-- membership in `remove_rows(idxs)`: the rows whose position is not listed -/
+theorem mem_removeRows (p : Aff α) (idxs : List Nat) (x : List α) :
+    Poly.Mem (p.removeRows idxs) x ↔
+    ∀ j (h : j < p.rows.length), j ∉ idxs → dot (p.rows[j]).1 x ≤ (p.rows[j]).2 := by
+  unfold Poly.Mem Aff.removeRows
+  rw [ofRows_rows, removeRowsAux_mem 0 idxs p.rows x]
+  simp
+
+/-- the solver's optimum is a true optimum: the hypothesis under which dropping rows is exact -/
+def OptimalSound {σ : Type} (lp : LPOracle σ α) : Prop :=
+  ∀ s q c x, (lp s q c).1 = LPAnswer.optimal x → ∀ z, Poly.Mem q z → dot c x ≤ dot c z
+
+theorem removeRedundantLoop_spec {σ : Type} (lp : LPOracle σ α) (hopt : OptimalSound lp) (hinf : InfeasibleSound lp)
+    (p : Aff α) (hwf : p.WF) (idxs red : List Nat) (s : σ) (r : Aff α)
+    (hinv : ∀ x, Poly.Mem (p.removeRows red) x → Poly.Mem p x)
+    (h : (removeRedundantLoop 0 lp p idxs red s).1 = .ok r) :
+    ∀ x, Poly.Mem r x ↔ Poly.Mem p x := by
+  induction idxs generalizing red s with
+  | nil =>
+    simp only [removeRedundantLoop, RedResult.ok.injEq] at h
+    subst h
+    intro x
+    refine ⟨hinv x, fun hm => ?_⟩
+    rw [mem_removeRows]
+    intro j hj _
+    exact hm _ (List.getElem_mem hj)
+  | cons i rest ih =>
+    simp only [removeRedundantLoop] at h
+    rcases hlp : lp s (p.removeRows (i :: red)) (vneg (p.mat.getD i [])) with ⟨a, s'⟩
+    rw [hlp] at h
+    cases a with
+    | error => simp at h
+    | unbounded => exact ih red s' hinv h
+    | infeasible =>
+      simp only [RedResult.ok.injEq] at h
+      subst h
+      intro x
+      have hempty := hinf s _ _ (by rw [hlp])
+      constructor
+      · intro hm; exact absurd hm (C14_unbounded_empty p.indim x).2
+      · intro hm
+        exfalso
+        apply hempty
+        refine ⟨x, ?_⟩
+        rw [mem_removeRows]
+        intro j hj _
+        exact hm _ (List.getElem_mem hj)
+    | optimal xs =>
+      simp only at h
+      split at h
+      · rename_i hle
+        refine ih (i :: red) s' ?_ h
+        intro x hx
+        apply hinv x
+        rw [mem_removeRows] at hx ⊢
+        intro j hj hjr
+        by_cases hji : j = i
+        · subst hji
+          -- row j is implied by the other rows: the solver's optimum bounds it
+          have hmax := hopt s _ _ xs (by rw [hlp]) x (by rw [mem_removeRows]; exact hx)
+          rw [dot_vneg_left, dot_vneg_left] at hmax
+          have hjm : j < p.mat.length := by
+            unfold Aff.rows at hj; simp only [List.length_zip] at hj; omega
+          have hjb : j < p.bias.length := by
+            unfold Aff.rows at hj; simp only [List.length_zip] at hj; omega
+          have e1 : (p.rows[j]).1 = p.mat.getD j [] := by
+            simp only [Aff.rows, List.getElem_zip, List.getD_eq_getElem?_getD, List.getElem?_eq_getElem hjm,
+              Option.getD_some]
+          have e2 : (p.rows[j]).2 = p.bias.getD j 0 := by
+            simp only [Aff.rows, List.getElem_zip, List.getD_eq_getElem?_getD, List.getElem?_eq_getElem hjb,
+              Option.getD_some]
+          rw [e1, e2]
+          simp only [add_zero] at hle
+          linarith
+        · exact hx j hj (by simp [hji, hjr])
+      · exact ih red s' hinv h
+
+/-- `remove_redundant_row_constraints` with an exact solver (its optima are optima, its "infeasible" is right, and
+    the comparison threshold is 0): the result denotes the same point set — or is the canonical empty polytope when
+    the system is empty. The implementation adds `f64::EPSILON` to the threshold; the judge decides set equality
+    per case with exact certificates -/
+theorem C15_remove_redundant_exact {σ : Type} (lp : LPOracle σ α) (hopt : OptimalSound lp)
+    (hinf : InfeasibleSound lp) (p : Aff α) (hwf : p.WF) (s : σ) (r : Aff α)
+    (h : (Poly.removeRedundant 0 lp p s).1 = .ok r) : ∀ x, Poly.Mem r x ↔ Poly.Mem p x := by
+  unfold Poly.removeRedundant at h
+  refine removeRedundantLoop_spec lp hopt hinf p hwf _ [] s r ?_ h
+  intro x hx
+  rw [mem_removeRows] at hx
+  intro rb hrb
+  obtain ⟨j, hj, rfl⟩ := List.mem_iff_getElem.mp hrb
+  exact hx j hj (by simp)
 
 end AV
